@@ -346,7 +346,16 @@ func genC20(tier string) []Scenario {
 			for _, dur := range []time.Duration{w, 3 * w} {
 				out = append(out, waitScn{kind: kind, w: w, n: 3, cancelJ: -1, bound: 0, execDur: dur}.scenario())
 				out = append(out, waitScn{kind: kind, w: w, n: 3, cancelJ: 0, d: w / 2, bound: 1, execDur: dur}.scenario())
+				out = append(out, waitScn{kind: kind, w: w, n: 3, cancelJ: 0, d: 0, bound: 2, execDur: dur}.scenario())
+				out = append(out, waitScn{kind: kind, w: w, n: 3, cancelJ: 1, d: 0, bound: 2, execDur: dur}.scenario())
 			}
+		}
+	}
+	for _, c := range []int{0, 2} {
+		out = append(out, waitScn{kind: -1, w: time.Millisecond, n: 3, items: 1, c: c, cancelJ: 0, d: 0, bound: 2, execDur: 2 * time.Millisecond}.scenario())
+		// more items than workers + queue, workers in a one-hour wait, then the cancellation
+		if c > 0 {
+			out = append(out, waitScn{kind: -1, w: time.Hour, n: 2, items: 3*c + 1, c: c, cancelJ: 0, d: time.Minute, bound: 0}.scenario())
 		}
 	}
 	out = append(out, waitScn{kind: -1, w: time.Millisecond, n: 2, items: 2, c: 0, cancelJ: -1, bound: 0, execDur: 2 * time.Millisecond}.scenario())
